@@ -3,6 +3,8 @@ package props
 import (
 	"fmt"
 	strend "github.com/cinar/indicator/v2/strategy/trend"
+	"reflect"
+	"strings"
 
 	"github.com/cinar/indicator/v2/strategy"
 
@@ -130,8 +132,54 @@ func c06Ctors(ctx *run.Ctx) {
 	})
 }
 
+// c06Smoothing: the smoothing constants of the moving averages inside a
+// strategy are public configuration. A strategy that rebuilds its averages
+// from the periods alone loses them; the reference-free consequence checked
+// here is that changing one changes the recommendations on at least one of
+// four long, volatile series (an EMA with smoothing 3.25 instead of 2 weighs
+// the newest value 1.6 times as much: its crossings move).
+func c06Smoothing(ctx *run.Ctx) {
+	for _, row := range reg.SortedStrats() {
+		row := row
+		ctx.Case("smoothing/"+row.Name, func(cc *run.Case) {
+			var fields []floatField
+			collectFloatFields(reflect.ValueOf(row.New(row.Default)), "", 0, &fields)
+			n := 0
+			for fi := range fields {
+				if !strings.HasSuffix(fields[fi].path, "Smoothing") {
+					continue
+				}
+				changed := false
+				for k := 0; k < 4 && !changed; k++ {
+					snaps := reg.Snaps(gen.Bars(gen.New(ctx.Seed, fmt.Sprintf("smoothing/%d", k)), gen.Walk, 400))
+					base := runStrat(row.New(row.Default), snaps)
+					inst := row.New(row.Default)
+					var fs []floatField
+					collectFloatFields(reflect.ValueOf(inst), "", 0, &fs)
+					if fi >= len(fs) || fs[fi].path != fields[fi].path {
+						changed = true
+						break
+					}
+					fs[fi].v.SetFloat(fs[fi].v.Float()*1.5 + 0.25)
+					changed = !eqActions(runStrat(inst, snaps), base)
+				}
+				n++
+				cc.Count("public_smoothing_fields_probed", 1)
+				if !changed {
+					cc.Viol("", fmt.Sprintf("%s: changing the public field %s changes no recommendation on four 400-bar series: the strategy ignores that part of its configuration", row.Name, fields[fi].path), map[string]any{"strategy": row.Name, "field": fields[fi].path})
+					return
+				}
+			}
+			if n > 0 {
+				cc.Distinct("smoothing/" + row.Name)
+			}
+		})
+	}
+}
+
 func c06(ctx *run.Ctx) {
 	c06Ctors(ctx)
+	c06Smoothing(ctx)
 	base := baseStrats(ctx, ctx.Pick(8, 60))
 	classes := []string{gen.Walk, gen.Walk2, gen.Dyadic, gen.Ties, gen.Degen, gen.Halt}
 	if !ctx.Quick() {
